@@ -381,6 +381,9 @@ def withConc (cas obs : List String) (k : ConcCase → Answer) : Answer :=
   | ["conc", m, pre, arch, trig, roll, clock, ampS, thS], [implObs] =>
     let thr := (decList '|' thS).map (fun t => mapM? decRec (decList ',' t))
     match decCase m pre arch trig roll clock, decNat ampS, mapM? id thr, splitOnChar '!' implObs with
+    | some c, some _, some _, ["PANIC", _, _] =>
+      -- a writer thread (or the appender) panicked: an observation, never a protocol error
+      { model := "no-panic", spec := "FAIL:panic in a concurrent run;sig=" ++ c.sig "C05" ++ "-conc-panic", tags := ["panic"] }
     | some c, some amp, some threads, [acksS, callsS, snapS] =>
       match mapM? (fun t => mapM? decNat (decList ',' t)) (decList '|' acksS), decSnap snapS, decNat callsS with
       | some acks, some snap, some calls =>
